@@ -240,7 +240,7 @@ pub proof fn lemma_sp_rev_tree_range(rc: Rc, probs: Seq<u16>, off: nat, n: nat, 
 }
 
 pub proof fn lemma_shl64(k: nat)
-    requires k < 63,
+    requires k < 64,
     ensures (1u64 << k) == pow2(k), (1usize << k) == pow2(k),
     decreases k
 {
@@ -252,9 +252,9 @@ pub proof fn lemma_shl64(k: nat)
         lemma_shl64((k - 1) as nat);
         lemma_pow2((k - 1) as nat);
         let k1: u64 = (k - 1) as u64;
-        assert((1u64 << ((k1 + 1) as u64)) == 2 * (1u64 << k1)) by (bit_vector) requires k1 < 62;
+        assert((1u64 << ((k1 + 1) as u64)) == 2 * (1u64 << k1)) by (bit_vector) requires k1 < 63;
         let k2: usize = (k - 1) as usize;
-        assert((1usize << ((k2 + 1) as usize)) == 2 * (1usize << k2)) by (bit_vector) requires k2 < 62;
+        assert((1usize << ((k2 + 1) as usize)) == 2 * (1usize << k2)) by (bit_vector) requires k2 < 63;
     }
 }
 
